@@ -7,8 +7,9 @@ use std::collections::HashMap;
 use mahf::{
     conditions::LessThanN,
     experiments::par_experiment,
-    heuristics::rs,
+    heuristics::{aco, ga, rs},
     problems::{Sequential, SingleObjectiveProblem},
+    Problem,
     Configuration, ExecResult, Random,
 };
 use rand::RngCore;
@@ -46,8 +47,8 @@ fn step_digests(o: &RunOutcome) -> Vec<String> {
     out
 }
 
-fn emit_group_member(out: &mut Out, group: u64, variant: &str, reference: bool, o: &RunOutcome) {
-    out.emit(&json!({"run": group, "ev": if reference { "ref_start" } else { "var_start" }, "variant": variant}));
+fn emit_group_member(out: &mut Out, group: u64, variant: &str, class: &str, reference: bool, o: &RunOutcome) {
+    out.emit(&json!({"run": group, "ev": if reference { "ref_start" } else { "var_start" }, "variant": variant, "class": class}));
     for d in step_digests(o) {
         out.emit(&json!({"run": group, "ev": "d", "digest": d, "variant": variant}));
     }
@@ -93,106 +94,250 @@ fn emit_par_evals(out: &mut Out, run: u64, evals: &[ParEvalRaw]) {
     }
 }
 
-fn variants(spec: &Value) -> Vec<(String, RunOpts, bool)> {
+/// the instance of the group, and other instances of the same problem class the same objects / threads see before it
+#[derive(Clone, Copy, PartialEq)]
+enum Which {
+    This,
+    /// more dimensions / cities
+    Bigger,
+    /// fewer dimensions / cities
+    Smaller,
+    /// the same size, another objective function / other distances
+    Other,
+}
+
+/// How one member of a group is run.  The reference is a stand-alone run: a fresh configuration object on a fresh thread.
+struct Variant {
+    name: String,
+    class: &'static str,
+    opts: RunOpts,
+    /// the configuration object is a clone (of a fresh one, or -- with `before` -- of the used one)
+    cloned: bool,
+    /// an instance that is solved first ...
+    before: Option<Which>,
+    /// ... by the same configuration object (else: by another fresh one)
+    same_object: bool,
+    /// ... on the same thread (else: on a thread of its own)
+    same_thread: bool,
+}
+
+fn variants(spec: &Value) -> Vec<Variant> {
     let pools: Vec<usize> = spec["pools"].as_array().map(|a| a.iter().map(|x| x.as_u64().unwrap() as usize).collect()).unwrap_or(vec![1, 2, 3, 8, 16]);
     let base = RunOpts { counting_rng: true, log_config: true, par_log: true, ..Default::default() };
-    let mut v = vec![("seq".to_string(), base.clone(), false)];
-    v.push(("seq-again".to_string(), base.clone(), false));
-    v.push(("seq-clone".to_string(), base.clone(), true));
+    let plain = |name: &str, class: &'static str, opts: RunOpts, cloned: bool| Variant { name: name.to_string(), class, opts, cloned, before: None, same_object: false, same_thread: false };
+    let mut v = vec![plain("seq", "ref", base.clone(), false)];
+    v.push(plain("seq-again", "again", base.clone(), false));
+    v.push(plain("seq-clone", "clone", base.clone(), true));
+    // every way of supplying the generator is "a generator supplied by the user"
+    v.push(plain("seq-entry-or-insert-with", "supply-entry", RunOpts { rng_supply: 1, ..base.clone() }, false));
+    v.push(plain("seq-entry-or-insert", "supply-entry", RunOpts { rng_supply: 2, ..base.clone() }, false));
+    v.push(plain("seq-guarded-insert", "supply-guarded", RunOpts { rng_supply: 3, ..base.clone() }, false));
+    // one configuration object (and clones of a used one) on several instances; threads that ran something else before
+    for (w, wn) in [(Which::Bigger, "bigger"), (Which::Smaller, "smaller"), (Which::Other, "other")] {
+        let after = |name: String, class: &'static str, cloned: bool, same_object: bool, same_thread: bool| Variant {
+            name, class, opts: base.clone(), cloned, before: Some(w), same_object, same_thread,
+        };
+        v.push(after(format!("one-thread-after-{wn}"), "one-thread", false, true, true));
+        v.push(after(format!("used-after-{wn}"), "used", false, true, false));
+        v.push(after(format!("clone-of-used-after-{wn}"), "used-clone", true, true, false));
+        v.push(after(format!("thread-after-{wn}"), "thread", false, false, true));
+    }
     for k in pools {
         for jitter in [0u64, 60] {
-            v.push((format!("par-{k}-j{jitter}"), RunOpts { parallel: true, threads: k, jitter, ..base.clone() }, jitter == 60 && k % 2 == 0));
+            v.push(plain(&format!("par-{k}-j{jitter}"), "par", RunOpts { parallel: true, threads: k, jitter, ..base.clone() }, jitter == 60 && k % 2 == 0));
         }
     }
     v
+}
+
+fn on_fresh_thread<T: Send>(f: impl FnOnce() -> T + Send) -> T {
+    match std::thread::scope(|s| s.spawn(f).join()) {
+        Ok(v) => v,
+        Err(e) => std::panic::resume_unwind(e),
+    }
+}
+
+fn run_group_on<P>(
+    out: &mut Out,
+    par_out: &mut Out,
+    group: u64,
+    spec: &Value,
+    mk_problem: &(dyn Fn(Which) -> P + Sync),
+    mk_config: &(dyn Fn() -> ExecResult<Configuration<P>> + Sync),
+    mk_extra: &(dyn Fn() -> Extra<P> + Sync),
+) where
+    P: Instrumented + SingleObjectiveProblem + Sync + Send + Clone,
+{
+    let seed = spec["seed"].as_u64().unwrap();
+    for (k, var) in variants(spec).into_iter().enumerate() {
+        let fresh = || mk_config();
+        let (config, other) = match (fresh(), fresh()) {
+            (Ok(c), Ok(o)) => (c, o),
+            (Err(e), _) | (_, Err(e)) => {
+                out.emit(&json!({"run": group, "ev": "ctor_err", "error": format!("{e:#}")}));
+                return;
+            }
+        };
+        let seq = RunOpts { counting_rng: true, log_config: true, ..Default::default() };
+        let o = match var.before {
+            None => {
+                let config = if var.cloned { config.clone() } else { config };
+                on_fresh_thread(|| observe_with(&config, &mk_problem(Which::This), seed, mk_extra(), &var.opts))
+            }
+            Some(w) => {
+                // (the run that comes first has its own seed: nothing of it may show in the run that follows)
+                let first = if var.same_object { &config } else { &other };
+                if var.same_thread {
+                    on_fresh_thread(|| {
+                        let _ = observe_with(first, &mk_problem(w), seed + 7, mk_extra(), &seq);
+                        observe_with(&config, &mk_problem(Which::This), seed, mk_extra(), &var.opts)
+                    })
+                } else {
+                    on_fresh_thread(|| {
+                        let _ = observe_with(first, &mk_problem(w), seed + 7, mk_extra(), &seq);
+                    });
+                    let second = if var.cloned { config.clone() } else { config };
+                    on_fresh_thread(|| observe_with(&second, &mk_problem(Which::This), seed, mk_extra(), &var.opts))
+                }
+            }
+        };
+        emit_group_member(out, group, &var.name, var.class, k == 0, &o);
+        if var.opts.parallel {
+            emit_par_evals(par_out, group * 1000 + k as u64, &o.par_evals);
+        }
+    }
+    out.emit(&json!({"run": group, "ev": "group_end"}));
 }
 
 fn run_group(out: &mut Out, par_out: &mut Out, group: u64, spec: &Value) {
     let name = spec["template"].as_str().unwrap();
     let params = &spec["params"];
     let n = spec["n"].as_u64().unwrap() as u32;
-    let seed = spec["seed"].as_u64().unwrap();
     let prob = &spec["prob"];
-    macro_rules! go {
-        ($mk_problem:expr, $mk_config:expr, $mk_extra:expr) => {{
-            for (k, (variant, opts, cloned)) in variants(spec).into_iter().enumerate() {
-                let problem = $mk_problem;
-                let config: Configuration<_> = match $mk_config {
-                    Ok(c) => c,
-                    Err(e) => {
-                        out.emit(&json!({"run": group, "ev": "ctor_err", "error": format!("{e:#}")}));
-                        return;
-                    }
-                };
-                let config = if cloned { config.clone() } else { config };
-                let (_, extra) = $mk_extra;
-                let o = observe_with(&config, &problem, seed, extra, &opts);
-                emit_group_member(out, group, &variant, k == 0, &o);
-                if opts.parallel {
-                    emit_par_evals(par_out, group * 1000 + k as u64, &o.par_evals);
-                }
-            }
-        }};
-    }
+    let f = prob["f"].as_u64().unwrap_or(0) as u8;
+    let dim = prob["dim"].as_u64().unwrap() as usize;
     match prob["kind"].as_str().unwrap() {
-        "real" => go!(
-            RealProblem::new(prob["f"].as_u64().unwrap_or(0) as u8, prob["dim"].as_u64().unwrap() as usize, prob["lo"].as_f64().unwrap(), prob["hi"].as_f64().unwrap()),
-            real_template::<RealProblem>(name, params, n),
-            templates_extra::real_extra(name, params, n)
+        "real" => {
+            let (lo, hi) = (prob["lo"].as_f64().unwrap(), prob["hi"].as_f64().unwrap());
+            run_group_on::<RealProblem>(
+                out,
+                par_out,
+                group,
+                spec,
+                &|w| match w {
+                    Which::This => RealProblem::new(f, dim, lo, hi),
+                    Which::Bigger => RealProblem::new(f, dim + 3, lo, hi),
+                    Which::Smaller => RealProblem::new(f, dim.saturating_sub(2).max(1), lo, hi),
+                    Which::Other => RealProblem::new(if f == 0 { 1 } else { 0 }, dim, lo, hi),
+                },
+                &|| real_template::<RealProblem>(name, params, n),
+                &|| templates_extra::real_extra(name, params, n).1,
+            )
+        }
+        "bits" => run_group_on::<BitProblem>(
+            out,
+            par_out,
+            group,
+            spec,
+            &|w| match w {
+                Which::This | Which::Other => BitProblem::new(dim),
+                Which::Bigger => BitProblem::new(dim + 5),
+                Which::Smaller => BitProblem::new(dim.saturating_sub(3).max(1)),
+            },
+            &|| bit_template::<BitProblem>(name, params, n),
+            &|| Box::new(|_, _, _| (Vec::new(), json!({}))),
         ),
-        "bits" => go!(BitProblem::new(prob["dim"].as_u64().unwrap() as usize), bit_template::<BitProblem>(name, params, n), {
-            let e: Extra<BitProblem> = Box::new(|_, _, _| (Vec::new(), json!({})));
-            ("-".to_string(), e)
-        }),
-        _ => go!(
-            TspProblem::new(prob["f"].as_u64().unwrap_or(0) as u8, prob["dim"].as_u64().unwrap() as usize),
-            perm_template::<TspProblem>(name, params, n),
-            templates_extra::tsp_extra(name, params)
+        _ => run_group_on::<TspProblem>(
+            out,
+            par_out,
+            group,
+            spec,
+            &|w| match w {
+                Which::This => TspProblem::new(f, dim),
+                Which::Bigger => TspProblem::new(f, dim + 2),
+                Which::Smaller => TspProblem::new(f, dim.saturating_sub(1).max(4)),
+                // the same cities count, other distances
+                Which::Other => TspProblem::new(if f == 1 { 0 } else { 1 }, dim),
+            },
+            &|| perm_template::<TspProblem>(name, params, n),
+            &|| templates_extra::tsp_extra(name, params).1,
         ),
     }
 }
 
 fn children(out: &mut Out, seeds: &[u64]) {
-    for &seed in seeds {
+    for (k, &seed) in seeds.iter().enumerate() {
         let mut r = Random::new(seed);
         let kids: Vec<String> = r.iter_children().take(3).map(|mut c| format!("{}-{}", c.next_u64(), c.next_u64())).collect();
-        // a user-supplied generator is what the first component draws from: no draw is made before it runs
-        let problem = RealProblem::new(0, 2, -1.0, 1.0);
-        let config: Configuration<RealProblem> = rs::real_rs(LessThanN::iterations(0)).unwrap();
-        let direct = {
-            // RandomSpread(1) on a 2-dimensional problem is the first component of real_rs: replay its draws
-            let state = config
-                .optimize_with(&problem, |state| {
-                    state.insert(Random::new(seed));
-                    state.insert_evaluator(Sequential::<RealProblem>::new());
-                    Ok(())
-                })
-                .unwrap();
-            let after_run = state.borrow::<Random>().config().seed;
-            let pops = state.populations();
-            let x = pops.current()[0].solution().clone();
-            (after_run, x)
-        };
-        let expected = {
-            use rand::Rng;
-            let mut r = Random::new(seed);
-            let x: Vec<f64> = (0..2).map(|_| r.gen_range(-1.0..1.0)).collect();
-            x
-        };
-        let same = direct.0 == seed && direct.1.iter().zip(&expected).all(|(a, b)| a.to_bits() == b.to_bits());
-        out.emit(&json!({"run": 900000 + seed, "ev": "children", "seed": seed, "kids": kids, "first_draw_same": same as i64}));
+        // a user-supplied generator is what the first component draws from: no draw is made before it runs --
+        // whichever way the set-up supplies it (plain insert, entry API, insert guarded by `contains`)
+        for supply in 0..4u8 {
+            let problem = RealProblem::new(0, 2, -1.0, 1.0);
+            let config: Configuration<RealProblem> = rs::real_rs(LessThanN::iterations(0)).unwrap();
+            let direct = {
+                // RandomSpread(1) on a 2-dimensional problem is the first component of real_rs: replay its draws
+                let state = config
+                    .optimize_with(&problem, |state| {
+                        match supply {
+                            0 => {
+                                state.insert(Random::new(seed));
+                            }
+                            1 => {
+                                state.entry::<Random>().or_insert_with(|| Random::new(seed));
+                            }
+                            2 => {
+                                state.entry::<Random>().or_insert(Random::new(seed));
+                            }
+                            _ => {
+                                if !state.contains::<Random>() {
+                                    state.insert(Random::new(seed));
+                                }
+                            }
+                        }
+                        state.insert_evaluator(Sequential::<RealProblem>::new());
+                        Ok(())
+                    })
+                    .unwrap();
+                let after_run = state.borrow::<Random>().config().seed;
+                let pops = state.populations();
+                let x = pops.current()[0].solution().clone();
+                (after_run, x)
+            };
+            let expected = {
+                use rand::Rng;
+                let mut r = Random::new(seed);
+                let x: Vec<f64> = (0..2).map(|_| r.gen_range(-1.0..1.0)).collect();
+                x
+            };
+            let same = direct.0 == seed && direct.1.iter().zip(&expected).all(|(a, b)| a.to_bits() == b.to_bits());
+            out.emit(&json!({"run": 900000 + 10 * k as u64 + supply as u64, "ev": "children", "seed": seed, "kids": kids,
+                             "supply": supply, "first_draw_same": same as i64}));
+        }
     }
 }
 
-fn log_setup(state: &mut mahf::State<RealProblem>, own_rng: bool) -> ExecResult<()> {
+/// The log set-up of the experiments.  `spelled`: the two rules of the `with_common` shorthand written out (the number of
+/// evaluations, the progress of the iterations) -- the stand-alone reference runs spell them out, the runner's set-up uses
+/// the shorthand: the logs must be the same.
+fn log_setup<P>(state: &mut mahf::State<P>, own_rng: bool, spelled: bool) -> ExecResult<()>
+where
+    P: SingleObjectiveProblem + mahf::problems::ObjectiveFunction,
+    P::Encoding: Clone + serde::Serialize + Send,
+{
+    use mahf::{conditions::EveryN, lens::ValueOf, state::common::{Evaluations, Iterations, Progress}};
     if own_rng {
         // a generator supplied by the user's setup: it must be the one the run uses
         state.insert(Random::with_rng::<super::templates::CountingRng>(777));
     }
-    state.insert_evaluator(Sequential::<RealProblem>::new());
+    state.insert_evaluator(Sequential::<P>::new());
     state.configure_log(|c| {
-        c.with_common(mahf::conditions::EveryN::iterations(3))
-            .with(mahf::conditions::EveryN::iterations(1), mahf::lens::common::BestObjectiveValueLens::entry());
+        if spelled {
+            c.with_auto::<Evaluations>(EveryN::iterations(3)).with_auto::<Progress<ValueOf<Iterations>>>(EveryN::iterations(3));
+        } else {
+            c.with_common(EveryN::iterations(3));
+        }
+        c.with(EveryN::iterations(1), mahf::lens::common::BestObjectiveValueLens::entry())
+            .with(EveryN::iterations(1), mahf::lens::common::BestSolutionLens::entry());
         Ok(())
     })
 }
@@ -209,90 +354,149 @@ fn file_digest(file: &std::path::Path) -> String {
     std::fs::read_to_string(file).unwrap_or("unreadable".to_string())
 }
 
-/// The batch experiment runner: `runs` x `problems` jobs on pools of 1/4/16 threads, with the
-/// run number as seed (or the generator of the user's setup).  Every (configuration, problem, run)
-/// is also made directly with `optimize_with` (pool 0): its log is the reference the runner's
-/// `<problem>_<run>.cbor` has to decode to.  A second experiment with another configuration is run
-/// into the same folder: `configuration.ron` has to be the record of the configuration that was run.
-fn experiments(out: &mut Out, dir: &std::path::Path, runs: u64, pools: &[usize]) {
-    let mut problems = vec![RealProblem::new(1, 3, -4.0, 12.0), RealProblem::new(0, 2, -1.0, 1.0), RealProblem::new(2, 2, -2.0, 2.0)];
-    problems[1].label = "RealProblem-b";
-    problems[2].label = "RealProblem-c";
-    let configs: Vec<(&str, Configuration<RealProblem>)> = vec![
-        ("real_rs(12)", rs::real_rs(LessThanN::iterations(12)).unwrap()),
-        ("real_rs(5)", rs::real_rs(LessThanN::iterations(5)).unwrap()),
-    ];
-    let mut id = 800000u64;
-    for own_rng in [false, true] {
+/// The batch experiment runner: `runs` x `problems` jobs on pools of several sizes, with the run number as seed (or the
+/// generator of the user's setup).  Every (configuration, problem, run) is also made stand-alone (pool 0: a fresh
+/// configuration object, a fresh thread, `optimize_with`): its log is what the runner's `<problem>_<run>.cbor` has to decode
+/// to -- whatever the other problems of the batch are (instances of other sizes come first), whichever worker ran which job
+/// before.  A second experiment with another configuration is run into the same folder: `configuration.ron` has to be the
+/// record of the configuration that was run.
+fn experiment_family<P>(
+    out: &mut Out,
+    id: &mut u64,
+    dir: &std::path::Path,
+    runs: u64,
+    pools: &[usize],
+    problems: &[P],
+    configs: &[(&str, &(dyn Fn() -> Configuration<P> + Sync))],
+    own_rngs: &[bool],
+) where
+    P: SingleObjectiveProblem + mahf::problems::ObjectiveFunction + mahf::problems::KnownOptimumProblem + Send + Sync,
+    P::Encoding: Clone + serde::Serialize + Send + std::fmt::Debug,
+{
+    for &own_rng in own_rngs {
         let tag = if own_rng { "-own-generator" } else { "" };
-        // references: the same runs made directly with optimize_with (run number as seed, or the user's generator)
-        for (cname, config) in &configs {
-            for problem in &problems {
+        for (cname, mk) in configs {
+            for problem in problems {
                 for run in 0..runs {
                     let file = dir.join(format!("exp-ref-{}-{run}.cbor", std::process::id()));
-                    let res = config.optimize_with(problem, |state| {
-                        if !own_rng {
-                            state.insert(Random::new(run));
+                    let ok = on_fresh_thread(|| {
+                        let config = mk();
+                        let res = config.optimize_with(problem, |state| {
+                            if !own_rng {
+                                state.insert(Random::new(run));
+                            }
+                            log_setup(state, own_rng, true)
+                        });
+                        match res {
+                            Ok(state) => state.log().to_cbor(&file).is_ok(),
+                            Err(_) => false,
                         }
-                        log_setup(state, own_rng)
                     });
-                    let ok = match res {
-                        Ok(state) => state.log().to_cbor(&file).is_ok(),
-                        Err(_) => false,
-                    };
                     let decoded = cbor_digest(&file);
                     let _ = std::fs::remove_file(&file);
-                    id += 1;
-                    out.emit(&json!({"run": id, "ev": "exp", "key": format!("{cname}{tag}/{}", problem.label), "pool": 0, "rn": run,
+                    *id += 1;
+                    out.emit(&json!({"run": *id, "ev": "exp", "key": format!("{cname}{tag}/{}", problem.name()), "pool": 0, "rn": run,
                                      "ok": (ok && decoded != "undecodable") as i64, "digest": fnv(&decoded)}));
                 }
             }
             let file = dir.join(format!("exp-ref-{}.ron", std::process::id()));
-            let ok = config.to_ron(&file).is_ok();
-            id += 1;
-            out.emit(&json!({"run": id, "ev": "exp", "key": format!("{cname}/configuration.ron"), "pool": 0, "rn": 0,
+            let ok = mk().to_ron(&file).is_ok();
+            *id += 1;
+            out.emit(&json!({"run": *id, "ev": "exp", "key": format!("{cname}/configuration.ron"), "pool": 0, "rn": 0,
                              "ok": ok as i64, "digest": fnv(&file_digest(&file))}));
             let _ = std::fs::remove_file(&file);
         }
         for &k in pools {
-            // both experiments go into the same folder, one after the other
+            // the experiments go into the same folder, one after the other
             let folder = dir.join(format!("exp-{}-{k}-{}", std::process::id(), own_rng as u8));
             let pool = rayon::ThreadPoolBuilder::new().num_threads(k).build().unwrap();
-            for (cname, config) in &configs {
+            for (cname, mk) in configs {
+                let config = mk();
                 let res: Result<ExecResult<()>, String> =
-                    caught(|| pool.install(|| par_experiment(config, |state| log_setup(state, own_rng), &problems, runs, &folder, true)));
+                    caught(|| pool.install(|| par_experiment(&config, |state| log_setup(state, own_rng, false), problems, runs, &folder, true)));
                 let ok = matches!(res, Ok(Ok(())));
-                for problem in &problems {
+                for problem in problems {
                     for run in 0..runs {
                         // the decoded content is what matters; key order inside a step map is not stable, so it is sorted
-                        let decoded = cbor_digest(&folder.join(format!("{}_{run}.cbor", problem.label)));
-                        id += 1;
-                        out.emit(&json!({"run": id, "ev": "exp", "key": format!("{cname}{tag}/{}", problem.label), "pool": k, "rn": run,
+                        let decoded = cbor_digest(&folder.join(format!("{}_{run}.cbor", problem.name())));
+                        *id += 1;
+                        out.emit(&json!({"run": *id, "ev": "exp", "key": format!("{cname}{tag}/{}", problem.name()), "pool": k, "rn": run,
                                          "ok": (ok && decoded != "undecodable") as i64, "digest": fnv(&decoded)}));
                     }
                 }
-                id += 1;
-                out.emit(&json!({"run": id, "ev": "exp", "key": format!("{cname}/configuration.ron"), "pool": k, "rn": 0,
+                *id += 1;
+                out.emit(&json!({"run": *id, "ev": "exp", "key": format!("{cname}/configuration.ron"), "pool": k, "rn": 0,
                                  "ok": ok as i64, "digest": fnv(&file_digest(&folder.join("configuration.ron")))}));
             }
             let _ = std::fs::remove_dir_all(&folder);
         }
     }
+}
+
+fn experiments(out: &mut Out, dir: &std::path::Path, runs: u64, pools: &[usize]) {
+    let mut id = 800000u64;
+    // random search on three real-valued instances, with the run number as seed and with the set-up's own generator
+    let mut problems = vec![RealProblem::new(1, 3, -4.0, 12.0), RealProblem::new(0, 2, -1.0, 1.0), RealProblem::new(2, 2, -2.0, 2.0)];
+    problems[1].label = "RealProblem-b";
+    problems[2].label = "RealProblem-c";
+    experiment_family(
+        out, &mut id, dir, runs, pools, &problems,
+        &[("real_rs(12)", &|| rs::real_rs(LessThanN::iterations(12)).unwrap()), ("real_rs(5)", &|| rs::real_rs(LessThanN::iterations(5)).unwrap())],
+        &[false, true],
+    );
+    // instances of different sizes in one batch (the biggest first), templates with recombination / generation steps
+    let mut reals = vec![RealProblem::new(0, 7, -4.0, 12.0), RealProblem::new(0, 2, -4.0, 12.0), RealProblem::new(1, 4, -4.0, 12.0), RealProblem::new(1, 7, -4.0, 12.0)];
+    for (p, l) in reals.iter_mut().zip(["Real-7", "Real-2", "Real-4", "Real-7b"]) {
+        p.label = l;
+    }
+    experiment_family(
+        out, &mut id, dir, runs, pools, &reals,
+        &[("real_ga", &|| {
+            ga::real_ga(ga::RealProblemParameters { population_size: 6, tournament_size: 2, pm: 1.0, deviation: 0.1, pc: 0.8 }, LessThanN::iterations(6)).unwrap()
+        })],
+        &[false],
+    );
+    let mut bits = vec![BitProblem::new(13), BitProblem::new(4), BitProblem::new(8)];
+    for (p, l) in bits.iter_mut().zip(["Bits-13", "Bits-4", "Bits-8"]) {
+        p.label = l;
+    }
+    experiment_family(
+        out, &mut id, dir, runs, pools, &bits,
+        &[("binary_ga", &|| {
+            ga::binary_ga(ga::BinaryProblemParameters { population_size: 6, tournament_size: 2, rm: 0.2, pc: 0.7, pm: 1.0 }, LessThanN::iterations(6)).unwrap()
+        })],
+        &[false],
+    );
+    let mut tsps = vec![TspProblem::new(0, 7), TspProblem::new(1, 7), TspProblem::new(0, 5), TspProblem::new(2, 5)];
+    for (p, l) in tsps.iter_mut().zip(["Tsp-7", "Tsp-7b", "Tsp-5", "Tsp-5b"]) {
+        p.label = l;
+    }
+    experiment_family(
+        out, &mut id, dir, runs, pools, &tsps,
+        &[
+            ("ant_system", &|| aco::ant_system(aco::ASParameters::verif_new(3, 1.0, 2.0, 1.0, 0.1, 1.0), LessThanN::iterations(5)).unwrap()),
+            ("max_min_ant_system", &|| {
+                aco::max_min_ant_system(aco::MMASParameters::verif_new(3, 1.0, 2.0, 0.5, 0.1, 1.0, 0.1), LessThanN::iterations(5)).unwrap()
+            }),
+        ],
+        &[false],
+    );
     // an experiment in which one run fails (its set-up returns an error): the configuration record is written before the
     // runs start, so it is there (and is the record of this configuration) although the experiment ends with an error
-    let (cname, config) = &configs[0];
+    let cname = "real_rs(12)";
+    let config: Configuration<RealProblem> = rs::real_rs(LessThanN::iterations(12)).unwrap();
     for &k in pools {
         let folder = dir.join(format!("exp-{}-{k}-failing", std::process::id()));
         let pool = rayon::ThreadPoolBuilder::new().num_threads(k).build().unwrap();
         let res: Result<ExecResult<()>, String> = caught(|| {
             pool.install(|| {
                 par_experiment(
-                    config,
+                    &config,
                     |state| {
                         if state.borrow::<Random>().config().seed == 1 {
                             return Err(eyre::eyre!("set-up of run 1 fails"));
                         }
-                        log_setup(state, false)
+                        log_setup(state, false, false)
                     },
                     &problems,
                     runs.max(2),
@@ -334,7 +538,7 @@ pub fn main(args: &Args) -> usize {
             }
             children(&mut out, &[0, 1, 2, 1, 0, args.seed(), args.seed() + 1, args.seed()]);
             let dir = std::path::Path::new(&outp).parent().map(|p| p.to_path_buf()).unwrap_or_default();
-            experiments(&mut out, &dir, args.num("exp-runs", 4), &[1, 4, 16]);
+            experiments(&mut out, &dir, args.num("exp-runs", 4), &[1, 2, 4, 16]);
         }
         // only the batch experiment runner (C15: configuration record and exported logs)
         "experiments" => {
